@@ -18,7 +18,7 @@ with open(_os.path.join(_os.path.dirname(_os.path.dirname(_os.path.abspath(__fil
         _PROPS[_p["id"]] = _p
 
 
-def reg(id, sources, rule, level="exploration", quick=("dbg-asan", "rel-asan"), thorough=("dbg-asan", "rel-asan", "msan"),
+def reg(id, sources, rule, level="exploration", quick=("dbg-asan", "rel-asan", "msan"), thorough=("dbg-asan", "rel-asan", "msan"),
         assumptions=(), exhaustive=None, **kw):
     d = dict(id=id, sources=list(sources), rule=rule, level=level,
              configs={"quick": list(quick), "thorough": list(thorough)},
@@ -43,7 +43,7 @@ reg("C16", ["c16_crc.c"],
                 "thorough": "all 2^24 update steps and all 2^32 (state, two-octet buffer) pairs"})
 
 reg("C15", ["c15_endian.c"],
-    quick=("dbg-asan", "noswap", "rel-asan"), thorough=("dbg-asan", "noswap", "rel-asan", "msan"),
+    quick=("dbg-asan", "noswap", "rel-asan", "msan"), thorough=("dbg-asan", "noswap", "rel-asan", "msan"),
     rule="for each of the 48 store/load codec pairs (u/s x 16..64 bit x n/b/l, f32/f64 x n/b/l): all values for 16 "
          "and 24 bit (16 bit at every alignment 0..7), 32 bit strided by 211 (quick) or all 2^32 (thorough), wider: "
          "every octet lane x every octet value x 3 fills x 8 alignments, all one- and two-bit patterns and their "
